@@ -69,18 +69,25 @@ theorem cleanup_split (P now : Nat) (es : List Nat) :
       · simp [cleanup, hx]
       · simp [cleanup, hx]; omega
 
-/-- `hist` = every start so far, oldest first -/
-structure Inv (limit P : Nat) (s : St) (hist : List Nat) : Prop where
+/-- safety part of the invariant; `hist` = every start so far, oldest first.  It does not say who
+released the lock last, so it also survives cancelled waiters. -/
+structure InvS (limit P : Nat) (s : St) (hist : List Nat) : Prop where
   split : ∃ d, hist = d ++ s.entries ∧ ∀ e ∈ d, e + P ≤ s.lockFree
   sorted : hist.Pairwise (· ≤ ·)
   le_lock : ∀ e ∈ hist, e ≤ s.lockFree
   len : s.entries.length ≤ limit + 1
   full : s.entries.length = limit + 1 → ∀ h ∈ s.entries.head?, h + P ≤ s.lockFree
   window : ∀ i a b, hist[i]? = some a → hist[i + limit]? = some b → a + P ≤ b
+
+/-- without cancellation the lock was last released by the last start -/
+structure Inv (limit P : Nat) (s : St) (hist : List Nat) : Prop extends InvS limit P s hist where
   lock_last : hist.getLast? = some s.lockFree ∨ (hist = [] ∧ s.lockFree = 0)
 
-theorem inv_init (limit P : Nat) : Inv limit P init [] := by
-  refine ⟨⟨[], by simp [init]⟩, by simp, by simp, by simp [init], by simp [init], by simp, by simp [init]⟩
+theorem invS_init (limit P : Nat) : InvS limit P init [] := by
+  refine ⟨⟨[], by simp [init]⟩, by simp, by simp, by simp [init], by simp [init], by simp⟩
+
+theorem inv_init (limit P : Nat) : Inv limit P init [] :=
+  ⟨invS_init limit P, by simp [init]⟩
 
 theorem getElem?_append_single {l : List Nat} {x : Nat} {i : Nat} {v : Nat}
     (h : (l ++ [x])[i]? = some v) : (i < l.length ∧ l[i]? = some v) ∨ (i = l.length ∧ v = x) := by
@@ -96,12 +103,12 @@ theorem getElem?_append_single {l : List Nat} {x : Nat} {i : Nat} {v : Nat}
     | succ k => rw [hk] at h; simp at h
 
 /-- what the cleanup leaves, relative to the full history -/
-theorem step_facts (limit P : Nat) (s : St) (hist : List Nat) (a : Nat) (h : Inv limit P s hist) :
+theorem step_facts (limit P : Nat) (s : St) (hist : List Nat) (a : Nat) (h : InvS limit P s hist) :
     ∃ dd, hist = dd ++ cleanup P (max a s.lockFree) s.entries ∧
       (∀ e ∈ dd, e + P ≤ max a s.lockFree) ∧
       (cleanup P (max a s.lockFree) s.entries).length ≤ limit ∧
       (∀ h ∈ (cleanup P (max a s.lockFree) s.entries).head?, ¬ (h + P ≤ max a s.lockFree)) := by
-  obtain ⟨⟨d, hsplit, hd⟩, _, _, hlen, hfull, _, _⟩ := h
+  obtain ⟨⟨d, hsplit, hd⟩, _, _, hlen, hfull, _⟩ := h
   obtain ⟨d2, hes, hd2, hhead⟩ := cleanup_split P (max a s.lockFree) s.entries
   generalize hnow : max a s.lockFree = now at *
   generalize hesdef : cleanup P now s.entries = es at *
@@ -127,12 +134,12 @@ theorem step_facts (limit P : Nat) (s : St) (hist : List Nat) (a : Nat) (h : Inv
         | cons y ys => simp at this; omega
     · omega
 
-theorem step_inv (limit P : Nat) (hl : 0 < limit) (s : St) (hist : List Nat) (a : Nat)
-    (h : Inv limit P s hist) :
-    Inv limit P (processN limit P s a).1 (hist ++ [(processN limit P s a).2]) ∧
+theorem step_invS (limit P : Nat) (hl : 0 < limit) (s : St) (hist : List Nat) (a : Nat)
+    (h : InvS limit P s hist) :
+    InvS limit P (processN limit P s a).1 (hist ++ [(processN limit P s a).2]) ∧
       a ≤ (processN limit P s a).2 := by
   obtain ⟨dd, hsplit', hdd, hes_len, hhead⟩ := step_facts limit P s hist a h
-  obtain ⟨_, hsorted, hle, _, _, hwin, _⟩ := h
+  obtain ⟨_, hsorted, hle, _, _, hwin⟩ := h
   simp only [processN]
   generalize hnow : max a s.lockFree = now at *
   generalize hesdef : cleanup P now s.entries = es at *
@@ -151,7 +158,7 @@ theorem step_inv (limit P : Nat) (hl : 0 < limit) (s : St) (hist : List Nat) (a 
     rcases List.mem_append.mp he with he | he
     · have := hle e he; omega
     · simp at he; omega
-  refine ⟨⟨⟨dd, hsplit'', hdropped⟩, ?_, hle', ?_, ?_, ?_, ?_⟩, by omega⟩
+  refine ⟨⟨⟨dd, hsplit'', hdropped⟩, ?_, hle', ?_, ?_, ?_⟩, by omega⟩
   · rw [List.pairwise_append]
     refine ⟨hsorted, by simp, ?_⟩
     intro x hx y hy
@@ -194,7 +201,13 @@ theorem step_inv (limit P : Nat) (hl : 0 < limit) (s : St) (hist : List Nat) (a 
           rw [← hst]; unfold startOf
           simp [hlen_es]
           omega
-  · left; simp
+
+theorem step_inv (limit P : Nat) (hl : 0 < limit) (s : St) (hist : List Nat) (a : Nat)
+    (h : Inv limit P s hist) :
+    Inv limit P (processN limit P s a).1 (hist ++ [(processN limit P s a).2]) ∧
+      a ≤ (processN limit P s a).2 :=
+  ⟨⟨(step_invS limit P hl s hist a h.toInvS).1, Or.inl (by simp [processN])⟩,
+    (step_invS limit P hl s hist a h.toInvS).2⟩
 
 theorem run_inv (limit P : Nat) (hl : 0 < limit) :
     ∀ (as : List Nat) (s : St) (hist : List Nat), Inv limit P s hist →
@@ -230,7 +243,7 @@ def closedForm (limit P : Nat) : List Nat → List Nat → List Nat
 
 theorem step_closed (limit P : Nat) (hl : 0 < limit) (s : St) (hist : List Nat) (a : Nat)
     (h : Inv limit P s hist) : (processN limit P s a).2 = closedStart limit P hist a := by
-  obtain ⟨dd, hsplit', hdd, hes_len, hhead⟩ := step_facts limit P s hist a h
+  obtain ⟨dd, hsplit', hdd, hes_len, hhead⟩ := step_facts limit P s hist a h.toInvS
   have hlast := h.lock_last
   simp only [processN, closedStart]
   have hm : (match hist.getLast? with | some p => max a p | none => a) = max a s.lockFree := by
@@ -538,5 +551,138 @@ theorem run_zero_limit (P : Nat) (as : List Nat) (l : Nat) :
     rcases hr with rfl | hr
     · rfl
     · exact ih _ r hr
+
+/-! ## cancelled callers: the safety invariant survives -/
+
+theorem preempts_none (x : Nat) : preempts none x = false := rfl
+
+theorem processC_none (limit P : Nat) (s : St) (a : Nat) :
+    processC limit P s a none = ((process limit P s a).1, .ran (process limit P s a).2) := by
+  simp only [processC, process, preempts_none]
+  cases h : cleanup P (max a s.lockFree) s.entries with
+  | nil => by_cases hle : limit ≤ 0 <;> simp [hle]
+  | cons e rest => by_cases hle : limit ≤ rest.length + 1 <;> simp [hle]
+
+theorem runC_none (limit P : Nat) (as : List Nat) (s : St) :
+    runC limit P s (as.map fun a => (a, none)) = (run limit P s as).map .ran := by
+  induction as generalizing s with
+  | nil => rfl
+  | cons a as ih => simp [runC, run, processC_none, ih]
+
+/-- the three things `processC` can do for `limit ≥ 1` -/
+theorem processC_cases (limit P : Nat) (hl : 0 < limit) (s : St) (a : Nat) (c : Option Cancel) :
+    (processC limit P s a c = (s, .cancelledQueued)) ∨
+    (processC limit P s a c =
+        ({ entries := cleanup P (max a s.lockFree) s.entries,
+           lockFree := max (max a s.lockFree) (cancelTime c) }, .cancelledSleeping)) ∨
+    (processC limit P s a c = ((processN limit P s a).1, .ran (.started (processN limit P s a).2))) := by
+  simp only [processC, processN, startOf]
+  by_cases hq : preempts c (max a s.lockFree) = true
+  · left; simp [hq]
+  · right
+    simp only [hq]
+    cases h : cleanup P (max a s.lockFree) s.entries with
+    | nil =>
+      have : ¬ limit ≤ 0 := by omega
+      right; simp [this]
+    | cons e rest =>
+      by_cases hle : limit ≤ rest.length + 1
+      · by_cases hp : preempts c (max a (max s.lockFree (e + P))) = true
+        · left; simp [hle, hp, Nat.max_assoc]
+        · right; simp [hle, hp, Nat.max_assoc]
+      · right; simp [hle]
+
+/-- the four things `processC` can do (any limit) -/
+theorem processC_shape (limit P : Nat) (s : St) (a : Nat) (c : Option Cancel) :
+    (processC limit P s a c = (s, .cancelledQueued)) ∨
+    (processC limit P s a c =
+        ({ entries := cleanup P (max a s.lockFree) s.entries,
+           lockFree := max (max a s.lockFree) (cancelTime c) }, .cancelledSleeping)) ∨
+    (∃ st t, processC limit P s a c = (st, .ran (.started t))) ∨
+    (∃ st, processC limit P s a c = (st, .ran .indexError)) := by
+  simp only [processC]
+  by_cases hq : preempts c (max a s.lockFree) = true
+  · left; simp [hq]
+  · right
+    simp only [hq]
+    cases h : cleanup P (max a s.lockFree) s.entries with
+    | nil =>
+      by_cases hle : limit ≤ 0
+      · right; right; simp [hle]
+      · right; left; simp [hle]
+    | cons e rest =>
+      by_cases hle : limit ≤ rest.length + 1
+      · by_cases hp : preempts c (max a (max s.lockFree (e + P))) = true
+        · left; simp [hle, hp, Nat.max_assoc]
+        · right; left; simp [hle, hp, Nat.max_assoc]
+      · right; left; simp [hle]
+
+theorem stepC_invS (limit P : Nat) (hl : 0 < limit) (s : St) (hist : List Nat) (a : Nat)
+    (c : Option Cancel) (h : InvS limit P s hist) :
+    InvS limit P (processC limit P s a c).1
+      (hist ++ startsC [(processC limit P s a c).2]) := by
+  rcases processC_cases limit P hl s a c with hc | hc | hc
+  · rw [hc]; simpa [startsC] using h
+  · rw [hc]
+    obtain ⟨dd, hsplit', hdd, hes_len, _⟩ := step_facts limit P s hist a h
+    obtain ⟨_, hsorted, hle, _, _, hwin⟩ := h
+    simp only [startsC, List.filterMap_cons, List.filterMap_nil, List.append_nil]
+    refine ⟨⟨dd, hsplit', ?_⟩, hsorted, ?_, ?_, ?_, hwin⟩
+    · intro e he; have := hdd e he; simp only; omega
+    · intro e he; have := hle e he; simp only; omega
+    · simp only; omega
+    · intro hfull; simp only at hfull; omega
+  · rw [hc]
+    simpa [startsC] using (step_invS limit P hl s hist a h).1
+
+theorem runC_invS (limit P : Nat) (hl : 0 < limit) :
+    ∀ (cs : List (Nat × Option Cancel)) (s : St) (hist : List Nat), InvS limit P s hist →
+      ∃ s', InvS limit P s' (hist ++ startsC (runC limit P s cs)) := by
+  intro cs
+  induction cs with
+  | nil => intro s hist h; exact ⟨s, by simpa [runC, startsC] using h⟩
+  | cons x cs ih =>
+    intro s hist h
+    obtain ⟨a, c⟩ := x
+    have hs := stepC_invS limit P hl s hist a c h
+    obtain ⟨s', hs'⟩ := ih (processC limit P s a c).1 _ hs
+    refine ⟨s', ?_⟩
+    have : startsC (runC limit P s ((a, c) :: cs)) =
+        startsC [(processC limit P s a c).2] ++ startsC (runC limit P (processC limit P s a c).1 cs) := by
+      simp only [runC]
+      cases (processC limit P s a c).2 with
+      | ran r => cases r <;> simp [startsC]
+      | cancelledQueued => simp [startsC]
+      | cancelledSleeping => simp [startsC]
+    rw [this, ← List.append_assoc]
+    exact hs'
+
+/-- a call that starts does so no earlier than it arrived, cancelled callers or not -/
+theorem runC_ge_arrival (limit P : Nat) (cs : List (Nat × Option Cancel)) (s : St) (i a t : Nat)
+    (c : Option Cancel) (hc : cs[i]? = some (a, c))
+    (ht : (runC limit P s cs)[i]? = some (.ran (.started t))) : a ≤ t := by
+  induction cs generalizing s i with
+  | nil => simp at hc
+  | cons x cs ih =>
+    obtain ⟨a0, c0⟩ := x
+    cases i with
+    | zero =>
+      simp only [List.getElem?_cons_zero, Option.some.injEq, Prod.mk.injEq] at hc
+      obtain ⟨rfl, rfl⟩ := hc
+      simp only [runC, List.getElem?_cons_zero, Option.some.injEq] at ht
+      simp only [processC] at ht
+      split at ht
+      · simp at ht
+      · split at ht
+        · split at ht
+          · split at ht
+            · simp at ht
+            · simp at ht; omega
+          · simp at ht
+        · simp at ht; omega
+    | succ i =>
+      simp only [List.getElem?_cons_succ] at hc
+      simp only [runC, List.getElem?_cons_succ] at ht
+      exact ih _ i hc ht
 
 end Haiway.Throttle
